@@ -44,6 +44,7 @@ func init() {
 			{ID: "C16.R21", Text: "a scrape asks the cluster itself and is not queued behind another: no coalescing or serialising layer in front of the client or the collector that is not a proven pass-through (same rules as C20.R19 and C20.R20)", Run: func(c *Ctx, id string) { decoratorsTransparent()(c, id); noNewLayers(c, id) }},
 			{ID: "C16.R22", Text: "the active-stream gauge counts the streams that are open: one opener per assigned vBucket (same rule as C15.R3)", Run: c15r3},
 			{ID: "C16.R24", Text: "a scrape observes and does not interfere: the stream getters behind the collector and the state endpoints change no state (same rule as C01.R19)", Run: streamGettersArePure},
+			{ID: "C16.R25", Text: "the active-stream gauge follows every end: the end listener handed to every observer is the stream own end listener, a method value — not a once-only or filtering closure (the observer is reused across a re-open)", Run: observerCallbacksBound},
 			{ID: "C16.R23", Text: "the active-stream gauge follows every re-open: the re-open loop makes its request or gives up loudly, it never skips silently (same rule as C12.R3)", Run: c12r3},
 			{ID: "C16.R5", Text: "active-stream count: set at open, decremented once per final end only (same rules as C12.R1, C12.R2)", Run: func(c *Ctx, id string) { c12r1(c, id); c12r2counter(c, id) }},
 		},
